@@ -403,6 +403,7 @@ func (c *Ctx) ruleStrip(fn *ssa.Function, want map[string]bool) {
 	// gated by name tests
 	got := map[string]bool{}
 	gated := false
+	tableUnknown := false // a membership test on the name whose table is not resolved
 	var target ssa.Instruction = strip
 	for fr := sfr; fr != nil; fr = fr.parent {
 		f := fr.fn
@@ -429,6 +430,15 @@ func (c *Ctx) ruleStrip(fn *ssa.Function, want map[string]bool) {
 				truth = !truth
 			}
 			if !truth {
+				continue
+			}
+			// membership in a package-level []string that is only read: slices.Contains(table, name)
+			if call, isCall := cond.(*ssa.Call); isCall && ir.CallID(call) == "slices.Contains" && len(call.Call.Args) == 2 && fromName(call.Call.Args[1], fr) {
+				if set, ok := c.globalStringList(dv.resolve(call.Call.Args[0], fr).v); ok {
+					gates = append(gates, gate{ce.Edge, set})
+				} else {
+					tableUnknown = true
+				}
 				continue
 			}
 			switch x := cond.(type) {
@@ -497,7 +507,11 @@ func (c *Ctx) ruleStrip(fn *ssa.Function, want map[string]bool) {
 	if !gated {
 		det += "; the stripping step is reachable without a variable-name test"
 	}
-	c.R.Check(ok, "F10.strip", fname, "name-table", c.IPos(strip), "the descriptor is stripped exactly for the variables defined with TIME_BASED_AUTHENTICATED_WRITE_ACCESS, selected by name", det)
+	if !ok && tableUnknown {
+		c.R.Infof("F10.strip", fname, "name-table", c.IPos(strip), "not decided for this shape: the variable name is looked up in a table that is not a package-level list of constant strings which the library only reads")
+	} else {
+		c.R.Check(ok, "F10.strip", fname, "name-table", c.IPos(strip), "the descriptor is stripped exactly for the variables defined with TIME_BASED_AUTHENTICATED_WRITE_ACCESS, selected by name", det)
+	}
 	// the buffer that is decoded is a fresh local filled by Marshal of the caller's value
 	sf := sfr.fn
 	bufOK, bufDet := false, "the buffer handed to the descriptor decoder is not a local buffer filled by this call's Marshal"
@@ -690,6 +704,146 @@ func (c *Ctx) globalStringSet(m ssa.Value) (map[string]bool, bool) {
 		}
 	})
 	return out, ok && len(out) > 0
+}
+
+// globalStringList: v is the load of a package-level []string that the package
+// initialiser sets once to a literal of constant strings and that library code
+// only reads (element reads, len, range, slices.Contains / slices.Index);
+// returns the elements.
+func (c *Ctx) globalStringList(v ssa.Value) (map[string]bool, bool) {
+	ld, ok := v.(*ssa.UnOp)
+	if !ok || ld.Op != token.MUL {
+		return nil, false
+	}
+	g, ok := ld.X.(*ssa.Global)
+	if !ok || g.Pkg == nil {
+		return nil, false
+	}
+	init := g.Pkg.Func("init")
+	if init == nil {
+		return nil, false
+	}
+	// the only store: in init, a full slice of a fresh array
+	var lit ssa.Value
+	n := 0
+	readOnly := true
+	var readOnlyUse func(x ssa.Value, depth int) bool
+	readOnlyUse = func(x ssa.Value, depth int) bool {
+		refs := x.Referrers()
+		if refs == nil || depth > 4 {
+			return false
+		}
+		for _, r := range *refs {
+			switch y := r.(type) {
+			case *ssa.DebugRef:
+			case *ssa.UnOp:
+				if y.Op != token.MUL {
+					return false
+				}
+				if _, isPtr := x.Type().Underlying().(*types.Pointer); isPtr {
+					if _, isStr := y.Type().Underlying().(*types.Basic); isStr {
+						continue // an element read
+					}
+				}
+				if !readOnlyUse(y, depth+1) {
+					return false
+				}
+			case *ssa.IndexAddr:
+				if y.X != x || !readOnlyUse(y, depth+1) {
+					return false
+				}
+			case *ssa.Range, *ssa.Phi:
+				if _, isPhi := y.(*ssa.Phi); isPhi && !readOnlyUse(y.(ssa.Value), depth+1) {
+					return false
+				}
+			case *ssa.Call:
+				switch ir.CallID(y) {
+				case "slices.Contains", "slices.Index", "builtin.len", "builtin.cap":
+				default:
+					return false
+				}
+			case *ssa.BinOp, *ssa.If:
+			default:
+				return false
+			}
+		}
+		return true
+	}
+	for _, fn := range c.P.LibFunctions() {
+		instrsOf(fn, func(i ssa.Instruction) {
+			switch x := i.(type) {
+			case *ssa.Store:
+				if x.Addr == ssa.Value(g) {
+					if fn == init {
+						lit, n = x.Val, n+1
+					} else {
+						readOnly = false
+					}
+				} else if x.Val == ssa.Value(g) {
+					readOnly = false
+				}
+			case *ssa.UnOp:
+				if x.X == ssa.Value(g) && x.Op == token.MUL && !readOnlyUse(x, 0) {
+					readOnly = false
+				}
+			default:
+				if _, isDbg := i.(*ssa.DebugRef); isDbg {
+					return
+				}
+				for _, op := range i.Operands(nil) {
+					if op != nil && *op == ssa.Value(g) {
+						readOnly = false // the address of the table is handed on
+					}
+				}
+			}
+		})
+	}
+	if !readOnly || n != 1 {
+		return nil, false
+	}
+	sl, isSl := lit.(*ssa.Slice)
+	if !isSl || sl.Low != nil || sl.High != nil || sl.Max != nil {
+		return nil, false
+	}
+	arr, isA := sl.X.(*ssa.Alloc)
+	if !isA {
+		return nil, false
+	}
+	at, isArr := arr.Type().Underlying().(*types.Pointer).Elem().Underlying().(*types.Array)
+	if !isArr {
+		return nil, false
+	}
+	out := map[string]bool{}
+	stores := int64(0)
+	for _, r := range *arr.Referrers() {
+		switch y := r.(type) {
+		case *ssa.Slice, *ssa.DebugRef:
+			if y != ssa.Instruction(sl) {
+				if _, isDbg := y.(*ssa.DebugRef); !isDbg {
+					return nil, false
+				}
+			}
+		case *ssa.IndexAddr:
+			for _, rr := range *y.Referrers() {
+				st, isSt := rr.(*ssa.Store)
+				if !isSt || st.Addr != ssa.Value(y) {
+					return nil, false
+				}
+				k, isK := st.Val.(*ssa.Const)
+				if !isK || k.Value == nil || k.Value.Kind() != constant.String {
+					return nil, false
+				}
+				out[constant.StringVal(k.Value)] = true
+				stores++
+			}
+		default:
+			return nil, false
+		}
+	}
+	if stores != at.Len() {
+		return nil, false // an element of the literal is not a constant written once
+	}
+	return out, len(out) > 0
 }
 
 // ruleDefinitionAttrs (F12.def): the typed accessors hand the variable store a
